@@ -155,7 +155,7 @@ def source_tie(rundir, wanted):
     except Exception as e:
         return dict(ok=False, failed=["translator"], log="lib/srcgen.py could not translate /repo's sources: %s" % e, theorems=names, assumptions=[], gen_sha=None)
     h = hashlib.sha256(gen.encode() + tie_txt.encode())
-    for v in ("Base_Bytes.v", "Spec_SHA.v", "Spec_Base64.v", "Spec_Base32.v", "Spec_Base36.v"):
+    for v in ("Base_Bytes.v", "Spec_SHA.v", "Spec_Base64.v", "Spec_Base32.v", "Spec_Base36.v", "Model_Sha1Transform.v"):
         h.update(open(os.path.join(COQ, v), "rb").read())
     cdir = os.path.join(CACHE, "tie"); os.makedirs(cdir, exist_ok=True)
     cfile = os.path.join(cdir, h.hexdigest()[:24] + ".json")
@@ -172,18 +172,26 @@ def source_tie(rundir, wanted):
             failed = ["translator"]; out = "generated Gen_Source.v does not compile: " + out[-1500:]
         else:
             # each theorem is checked on its own so that one broken statement does not hide the verdict of the others
-            pre = tie_txt.split("(* ---- tables")[0]
             shutil.copy(tie_src, os.path.join(d, "Tie_Source.v"))
             rc, out = sh(["timeout", "300", "coqc", "-Q", COQ, "HV", "-Q", d, "GEN", os.path.join(d, "Tie_Source.v")], cwd=d, timeout=330)
             if rc != 0:
-                # find which theorems fail: compile a copy where every failing proof is located by bisection over the statement list
-                for n in names:
-                    body = re.search(r"^Theorem\s+%s\b.*?Qed\." % n, tie_txt, flags=re.M | re.S).group(0)
-                    helper = re.search(r"^Definition fips_sched.*?\.\n(?=Theorem)", tie_txt, flags=re.M | re.S).group(0)
-                    one = os.path.join(d, "One_%s.v" % n)
-                    open(one, "w").write(pre + helper + body + "\n")
-                    r1, o1 = sh(["timeout", "120", "coqc", "-Q", COQ, "HV", "-Q", d, "GEN", one], cwd=d, timeout=150)
-                    if r1 != 0: failed.append(n)
+                # find which statements fail: abort the proof the error is in, compile again (dependents of an aborted statement fail in turn and are listed too)
+                cur = tie_txt
+                for _ in range(40):
+                    m = re.search(r"line (\d+), characters", out)
+                    if not m: break
+                    upto = "\n".join(cur.split("\n")[:int(m.group(1))])
+                    heads = list(re.finditer(r"^(?:Theorem|Lemma)\s+(\w+)", upto, flags=re.M))
+                    if not heads: break
+                    hd = heads[-1]; nm = hd.group(1)
+                    if nm in failed: break
+                    failed.append(nm)
+                    pstart = cur.index("Proof.", hd.start()); pend = cur.index("Qed.", pstart) + 4
+                    cur = cur[:pstart] + "Proof. Abort." + cur[pend:]
+                    cur = re.sub(r"Print Assumptions %s\.[ ]?" % nm, "", cur)
+                    open(os.path.join(d, "Tie_Source.v"), "w").write(cur)
+                    rc2, out = sh(["timeout", "300", "coqc", "-Q", COQ, "HV", "-Q", d, "GEN", os.path.join(d, "Tie_Source.v")], cwd=d, timeout=330)
+                    if rc2 == 0: break
                 if not failed: failed = ["Tie_Source"]
         ass = re.findall(r"^(Closed under the global context|Axioms:.*)$", out, flags=re.M)
         res = dict(failed=failed, log=out[-1500:], assumptions=ass, gen_sha=hashlib.sha256(gen.encode()).hexdigest()[:16])
